@@ -43,7 +43,7 @@ def cases(tier, seed):
             per = 6
             for c in range(0, len(starts), per):
                 out.append({"kind": "win", "N": N, "m": m, "starts": starts[c:c + per], "W": WIN[tier], "seed": seed})
-    npair = 40 if tier == "quick" else 400
+    npair = 40 if tier == "quick" else 1600
     for i in range(npair):
         rng = scenario.rng_for(seed, "C08h", i)
         N = int(rng.integers(2, 6))
